@@ -34,6 +34,11 @@ manifest, how it was confirmed, and what the checks said). Every change was conf
 scratch copy of /repo/pdfminer, the pinned suite still passes there (216 passed), the demonstration fails there and passes on /repo,
 then the property's check runs with VERIF_REPO=<copy>. None of them is ever applied to /repo.
 
+Each meta.json names a /repo commit the patch applies to with `git apply` (`applies_to_repo_commit`); later repairs in
+/repo touched some of the patched lines, so C13-c and C18-c no longer apply to the current head (C02-g, C03-f and C18-b
+still apply with `patch -p1`), and C15-d is no longer a defect there: the repair cdc58ca (image size and depth are
+checked before export) closes the path it used. Their recorded verdicts are from the commit they were written for.
+
 %d changes; %d are caught by the quick tier of their property's check (%d of them only after the check was strengthened, see below).
 
 | change | what it does | needs | caught by | first signature |
